@@ -32,7 +32,7 @@ META = dict(
     assumptions=["int(time()) is the only clock read per generate() call",
                  "generate() runs under the generator's RLock (one critical section)"])
 
-PREFIXES = [None, "u", "dev_1", "a_5", "7"]
+PREFIXES = [None, "u", "U", "dev_1", "Dev_1", "a_5", "7", " 7", "urn:x:A7", "urn:x:a7", ""]   # differ by case / space too
 
 
 def impl_ids(urn, clock):
@@ -201,8 +201,8 @@ def run(ctx, res):
     res.extra["thread_model_cases"] = len(tcases)
     # the engines BoboSetupSimple assembles: devices with different URNs, the same clock second, the same requests -
     # their run identifiers and event identifiers must not coincide (the prefix has to reach every generator)
-    r = setup_case(["dev:1", "dev:2", "dev:10"])
-    res.note_case(("setup", "dev:1/dev:2/dev:10"), True)
+    r = setup_case(["dev:1", "dev:2", "dev:10", "Dev:1", "urn:x:A7", "urn:x:a7"])
+    res.note_case(("setup", "dev:1/dev:2/dev:10/Dev:1/urn:x:A7/urn:x:a7"), True)
     res.extra["setup_wiring_ids"] = r
     for kind in ("run_ids", "event_ids"):
         allx = [x for u in r for x in r[u][kind]]
@@ -290,7 +290,7 @@ def hook_case(seq):
 def replay(obj):
     case = obj.get("case") or {}
     if case.get("setup"):
-        r = setup_case(["dev:1", "dev:2", "dev:10"])
+        r = setup_case(["dev:1", "dev:2", "dev:10", "Dev:1", "urn:x:A7", "urn:x:a7"])
         print("engines from BoboSetupSimple, clock pinned:", json.dumps(r, indent=1))
         bad = any(len(set(x for u in r for x in r[u][k])) != sum(len(r[u][k]) for u in r) for k in ("run_ids", "event_ids"))
         print("identifiers of different devices coincide" if bad else "identifiers of different devices are distinct")
